@@ -428,4 +428,179 @@ theorem parse_frame_rest_lt (al : Nat) (a : Bytes) (s : Bool) (mx : Nat) (f : Bo
   have hb := parseMetadata_ok_bounds a s m hm
   rw [hr, List.length_drop]; omega
 
+/-! ## write_message, taken apart -/
+
+/-- 7-bit length code -/
+def len7 (n : Nat) : UInt8 := if n < 126 then UInt8.ofNat n else if n ≤ 65535 then 126 else 127
+/-- extended length bytes -/
+def lenExt (n : Nat) : Bytes := if n < 126 then [] else if n ≤ 65535 then beBytes 2 n else beBytes 8 n
+
+theorem len7_lt (n : Nat) : (len7 n).toNat < 128 := by
+  unfold len7
+  split
+  · rw [UInt8.toNat_ofNat']; omega
+  · split <;> decide
+
+theorem tbl_second' (x : UInt8) (h : x.toNat < 128) :
+    (((0x80 : UInt8) ||| x) &&& 0x80 != 0) = true ∧ ((0x80 : UInt8) ||| x) &&& 0x7F = x ∧
+    (((0 : UInt8) ||| x) &&& 0x80 != 0) = false ∧ ((0 : UInt8) ||| x) &&& 0x7F = x := by
+  have := tbl_second x.toNat h
+  simpa using this
+
+theorem writeMessage_eq (al : Nat) (payload : Bytes) (op : OpCode) (fin : Bool) (mk : Option Mask) :
+    writeMessage al payload op fin mk =
+      (if fin then 0x80 ||| op.toByte else op.toByte) ::
+        ((if mk.isSome then 0x80 else 0) ||| len7 payload.length) ::
+          (lenExt payload.length ++
+            (match mk with
+             | some k => k.toList ++ applyMaskFallback payload k
+             | none => payload)) := by
+  unfold writeMessage len7 lenExt
+  by_cases h1 : payload.length < 126
+  · cases mk <;> simp [h1, applyMask_eq]
+  · by_cases h2 : payload.length ≤ 65535
+    · cases mk <;> simp [h1, h2, applyMask_eq]
+    · cases mk <;> simp [h1, h2, applyMask_eq]
+
+theorem parseLength_written (b0 b1 : UInt8) (n : Nat) (tail : Bytes) (hn : n < 2 ^ 64) :
+    parseLength (b0 :: b1 :: (lenExt n ++ tail)) (len7 n) = some (n, 2 + (lenExt n).length) := by
+  unfold parseLength len7 lenExt
+  by_cases h1 : n < 126
+  · have e1 : ¬ (UInt8.ofNat n == 126) = true := by
+      intro h; have := congrArg UInt8.toNat (eq_of_beq h); rw [UInt8.toNat_ofNat'] at this
+      have : n % 256 = 126 := this
+      omega
+    have e2 : ¬ (UInt8.ofNat n == 127) = true := by
+      intro h; have := congrArg UInt8.toNat (eq_of_beq h); rw [UInt8.toNat_ofNat'] at this
+      have : n % 256 = 127 := this
+      omega
+    simp only [h1, if_true, e1, e2, Bool.false_eq_true, if_false, List.length_nil, UInt8.toNat_ofNat']
+    congr 2
+    omega
+  · simp only [h1, if_false]
+    by_cases h2 : n ≤ 65535
+    · simp only [h2, if_true]
+      have : ((126 : UInt8) == 126) = true := by decide
+      simp only [this, if_true, List.length_cons, List.length_append, beBytes_length, List.drop_succ_cons, List.drop_zero]
+      have : ¬ (2 + tail.length + 1 + 1 < 4) := by omega
+      simp only [this, if_false]
+      rw [List.take_left' (beBytes_length 2 n), beNat_beBytes]
+      congr 2
+      have : (256 : Nat) ^ 2 = 65536 := by decide
+      omega
+    · simp only [h2, if_false]
+      have e1 : ((127 : UInt8) == 126) = false := by decide
+      have e2 : ((127 : UInt8) == 127) = true := by decide
+      simp only [e1, e2, Bool.false_eq_true, if_true, if_false, List.length_cons, List.length_append, beBytes_length, List.drop_succ_cons, List.drop_zero]
+      have : ¬ (8 + tail.length + 1 + 1 < 10) := by omega
+      simp only [this, if_false]
+      rw [List.take_left' (beBytes_length 8 n), beNat_beBytes]
+      congr 2
+      have : (256 : Nat) ^ 8 = 2 ^ 64 := by decide
+      omega
+
+theorem Mask.ofList_toList (k : Mask) (t : Bytes) : Mask.ofList ((k.toList ++ t).take 4) = k := by
+  cases k; simp [Mask.toList, Mask.ofList]
+
+/-- body of a written frame -/
+def bodyOf (payload : Bytes) : Option Mask → Bytes
+  | some k => applyMaskFallback payload k
+  | none => payload
+
+@[simp] theorem bodyOf_length (payload : Bytes) (mk : Option Mask) : (bodyOf payload mk).length = payload.length := by
+  cases mk <;> simp [bodyOf]
+
+/-- header length of a written frame -/
+def hdrLen (n : Nat) (mk : Option Mask) : Nat := 2 + (lenExt n).length + (if mk.isSome then 4 else 0)
+
+theorem parseMetadata_written (al : Nat) (payload rest : Bytes) (op : OpCode) (fin : Bool) (mk : Option Mask)
+    (hop : op ≠ .bad) (hn : payload.length < 2 ^ 64) :
+    parseMetadata (writeMessage al payload op fin mk ++ rest) mk.isSome =
+      .ok ⟨hdrLen payload.length mk, fin, op, payload.length, mk⟩ ∧
+    (writeMessage al payload op fin mk ++ rest).drop (hdrLen payload.length mk) = bodyOf payload mk ++ rest := by
+  rw [writeMessage_eq]
+  have t := tbl_second' (len7 payload.length) (len7_lt _)
+  cases mk with
+  | none =>
+    simp only [Option.isSome_none, Bool.false_eq_true, if_false, List.cons_append, List.append_assoc, hdrLen, bodyOf, Nat.add_zero]
+    constructor
+    · unfold parseMetadata
+      simp only [List.length_cons, List.getD_cons_zero, List.getD_cons_succ, tbl_first_fin, tbl_first_op fin op hop, t.2.2.1, t.2.2.2]
+      have : ¬ (lenExt payload.length ++ (payload ++ rest)).length + 1 + 1 < 2 := by omega
+      simp only [this, if_false, hop, Bool.not_false, Bool.and_false, Bool.false_and, Bool.false_eq_true,
+        parseLength_written _ _ _ _ hn]
+    · rw [show 2 + (lenExt payload.length).length = (lenExt payload.length).length + 1 + 1 by omega]
+      simp only [List.drop_succ_cons]
+      exact List.drop_left' rfl
+  | some k =>
+    simp only [Option.isSome_some, if_true, List.cons_append, List.append_assoc, hdrLen, bodyOf]
+    constructor
+    · unfold parseMetadata
+      simp only [List.length_cons, List.getD_cons_zero, List.getD_cons_succ, tbl_first_fin, tbl_first_op fin op hop, t.1, t.2.1]
+      have : ¬ (lenExt payload.length ++ (k.toList ++ (applyMaskFallback payload k ++ rest))).length + 1 + 1 < 2 := by omega
+      simp only [this, if_false, hop, Bool.not_true, Bool.and_true, Bool.true_and, Bool.false_eq_true, if_true,
+        parseLength_written _ _ _ _ hn]
+      have hl : ¬ (lenExt payload.length ++ (k.toList ++ (applyMaskFallback payload k ++ rest))).length + 1 + 1 <
+          2 + (lenExt payload.length).length + 4 := by
+        simp [Mask.toList]; omega
+      simp only [hl, if_false]
+      rw [show 2 + (lenExt payload.length).length = (lenExt payload.length).length + 1 + 1 by omega]
+      simp only [List.drop_succ_cons]
+      rw [List.drop_left' rfl, Mask.ofList_toList]
+    · rw [show 2 + (lenExt payload.length).length + 4 = ((lenExt payload.length).length + 4) + 1 + 1 by omega]
+      simp only [List.drop_succ_cons]
+      rw [← List.append_assoc]
+      exact List.drop_left' (by simp [Mask.toList])
+
+theorem hdrLen_le (n : Nat) (mk : Option Mask) : hdrLen n mk ≤ 14 := by
+  unfold hdrLen lenExt
+  split
+  · split <;> simp
+  · split <;> split <;> simp
+
+/-- **frame round trip** at the `Parser` level -/
+theorem parse_written (al al' : Nat) (payload rest : Bytes) (op : OpCode) (fin : Bool) (mk : Option Mask) (maxSize : Nat)
+    (hop : op ≠ .bad) (hn : payload.length < 2 ^ 63) (hmx : payload.length ≤ maxSize)
+    (hctl : op = .ping ∨ op = .pong ∨ op = .close → payload.length ≤ 125) :
+    parse al' (writeMessage al payload op fin mk ++ rest) mk.isSome maxSize =
+      (.frame fin op (if payload.length = 0 then none else some payload), rest) := by
+  obtain ⟨hm, hdrop⟩ := parseMetadata_written al payload rest op fin mk hop (by omega)
+  have hb := parseMetadata_ok_bounds _ _ _ hm
+  have hh := hdrLen_le payload.length mk
+  rw [parse_of_meta al' _ _ maxSize _ hm]
+  simp only [] at hb ⊢
+  have hlen : (writeMessage al payload op fin mk ++ rest).length = hdrLen payload.length mk + payload.length + rest.length := by
+    have := congrArg List.length hdrop
+    simp only [List.length_drop, List.length_append, bodyOf_length] at this
+    have := hb.2.1
+    simp only [List.length_append] at this ⊢
+    omega
+  have c1 : ¬ usizeMax < hdrLen payload.length mk + payload.length := by
+    unfold usizeMax; omega
+  have c2 : ¬ (writeMessage al payload op fin mk ++ rest).length < hdrLen payload.length mk + payload.length := by omega
+  have c3 : ¬ payload.length > maxSize := by omega
+  simp only [c1, c2, c3, if_false, hdrop]
+  by_cases h0 : payload.length = 0
+  · simp only [h0, if_true]
+    have : payload = [] := List.eq_nil_of_length_eq_zero h0
+    subst this
+    cases mk <;> simp [bodyOf, applyMaskFallback, maskFrom]
+  · simp only [h0, if_false]
+    have c5 : ¬ ((op = .ping ∨ op = .pong) ∧ payload.length > 125) := by
+      rintro ⟨h | h, hgt⟩
+      · have := hctl (Or.inl h); omega
+      · have := hctl (Or.inr (Or.inl h)); omega
+    have c6 : ¬ (op = .close ∧ payload.length > 125) := by
+      rintro ⟨h, hgt⟩
+      have := hctl (Or.inr (Or.inr h)); omega
+    simp only [c5, c6, if_false]
+    have hp : payloadOf (writeMessage al payload op fin mk ++ rest) ⟨hdrLen payload.length mk, fin, op, payload.length, mk⟩ = payload := by
+      unfold payloadOf
+      simp only [hdrop]
+      rw [List.take_left' (bodyOf_length payload mk)]
+      cases mk with
+      | none => rfl
+      | some k => exact maskFrom_involutive k 0 payload
+    rw [hp, List.drop_left' (bodyOf_length payload mk)]
+
 end ActixModel.Ws
